@@ -5,7 +5,9 @@ import (
 )
 
 // MsgGlobals are the globals the messages of MsgStress may print.
-var MsgGlobals = map[string]Value{"msgs.FLAG": I(-5), "MX": S("[global MX]"), "lib.util.userName": S("[global userName]")}
+var MsgGlobals = map[string]Value{"msgs.FLAG": I(-5), "MX": S("[global MX]"), "lib.util.userName": S("[global userName]"),
+	// two globals that end in the same segment and have the same value: still two placeholders
+	"site.URL": S("//host"), "cdn.URL": S("//host")}
 
 // MsgStress builds a message whose placeholders deliberately collide on their
 // base names: $a.x / $b.x / $x / $x_1 / $x_2, the same variable with
@@ -37,6 +39,8 @@ func (g *G) MsgStress(allowPlural bool) []Cmd {
 		{expr: &Expr{Op: "global", Name: "msgs.FLAG"}},
 		{expr: &Expr{Op: "global", Name: "MX"}},
 		{expr: &Expr{Op: "global", Name: "lib.util.userName"}},
+		{expr: &Expr{Op: "global", Name: "site.URL"}},
+		{expr: &Expr{Op: "global", Name: "cdn.URL"}},
 		// data references that do not end in a key (no name of their own: XXX as a placeholder, NUM as a plural value)
 		{let: Cmd{K: "let", Var: "nums", Expr: &Expr{Op: "list", Args: []*Expr{{Op: "int", I: 1}, {Op: "int", I: 3}}}}, expr: &Expr{Op: "ref", Name: "nums", Access: []Access{{Kind: "index", Index: 0}}}},
 		{let: Cmd{K: "let", Var: "nums", Expr: &Expr{Op: "list", Args: []*Expr{{Op: "int", I: 1}, {Op: "int", I: 3}}}}, expr: &Expr{Op: "ref", Name: "nums", Access: []Access{{Kind: "expr", Expr: &Expr{Op: "int", I: 1}}}}},
